@@ -54,6 +54,24 @@ Theorem rows_sum_to_one : forall c hv tr r tr' Y,
 Proof. exact rows_sum_to_one_l. Qed.
 Print Assumptions rows_sum_to_one.
 
+(* the label formula for ARBITRARY rational label rows (multi-hot rows, unnormalised soft rows, all-zero rows, rows of -1,
+   negative entries -- no premise on the row sums): entry j of the emitted label row of sample i is
+   lambda_i * y_i[j] + (1 - lambda_i) * y_p(i)[j]  with p(i) the partner the shuffle mode prescribes and lambda_i the weight
+   reported in the context (and used for the image: weight_shared); nothing is rescaled *)
+Theorem mixed_label_is_convex_combination_of_rows : forall c hv tr r tr' (Y : list (list Q)),
+  cfg_ok c -> trace_ok tr -> halves_ok hv -> collate c hv tr = Ok (r, tr') ->
+  forall ls, labs r = Some ls ->
+  exists perm, (shuf c = Random -> bsz c <> 1%nat -> In (DPerm perm) tr /\ Permutation perm (seq 0 (bsz c))) /\
+    forall i, (i < bsz c)%nat ->
+      let p := mode_partner (shuf c) (bsz c) perm i in
+      let row := render_label Y i (nth i ls (0%nat, 0%Q)) in
+      length (nth i Y []) = length (nth p Y []) ->
+      length row = length (nth i Y []) /\
+      forall j, (j < length (nth i Y []))%nat ->
+        (nth j row 0 == lam_of r i * nth j (nth i Y []) 0 + (1 - lam_of r i) * nth j (nth p Y []) 0)%Q.
+Proof. exact mixed_label_is_convex_combination_of_rows_l. Qed.
+Print Assumptions mixed_label_is_convex_combination_of_rows.
+
 (* the partner is the one the shuffle mode prescribes: roll (i-1) mod B, flip B-1-i, random perm[i] for the
    ONE permutation drawn in this call (a permutation of 0..B-1); B = 1: the sample itself *)
 Theorem p_follows_mode : forall c hv tr r tr',
